@@ -301,7 +301,7 @@ fn key_type(k: &str) -> char {
         "p" | "q" | "xs" | "k" => 'L',
         "pw" | "pw2" | "f" | "g" => 'P',
         "knots" => 'K',
-        "op" | "fmt" | "bytes" | "val" | "kind" => 'S',
+        "op" | "fmt" | "bytes" | "val" | "kind" | "nowin" | "level" => 'S',
         _ => 'F',
     }
 }
@@ -328,7 +328,7 @@ pub fn parse_case(line: &str) -> Option<Case> {
             c.tag = v.to_string();
             continue;
         }
-        if matches!(k, "impl" | "direct" | "directmax" | "byref" | "ln" | "exp" | "agree" | "tree" | "borsh" | "rt" | "lazy" | "deps" | "dmr") {
+        if matches!(k, "impl" | "direct" | "directmax" | "byref" | "ln" | "exp" | "agree" | "tree" | "borsh" | "rt" | "lazy" | "deps" | "dmr" | "eq") {
             continue;
         }
         let val = match key_type(k) {
